@@ -163,10 +163,12 @@ func (e *Engine) intrinsic(name string, args []any) any {
 	}
 	switch name {
 	case "String":
+		e.bounds[fmt.Sprintf("%s: arbitrary string, len <= %d", args[0].(string), args[1].(int64))] = true
 		n := e.input("String", args[0].(string))
 		e.S.Send(fmt.Sprintf("(assert (<= (str.len %s) %d))", n, args[1].(int64)))
 		return SymStr{n}
 	case "Int":
+		e.bounds[fmt.Sprintf("%s: integer in [%s, %s]", args[0].(string), intE(args[1]), intE(args[2]))] = true
 		n := e.input("Int", args[0].(string))
 		e.S.Send(fmt.Sprintf("(assert (and (<= %s %s) (<= %s %s)))", intE(args[1]), n, n, intE(args[2])))
 		return SymInt{n}
